@@ -278,3 +278,31 @@ theorem fdNonuniform_head_l (r b : List ℝ) :
       subst hrw; simp
 
 end Radial
+
+namespace Radial
+
+theorem stepsOk_of_indexed : ∀ (rest : List ℝ) (rp rc : ℝ), 0 ≤ rp → rp < rc → (rc :: rest).Pairwise (· < ·) →
+    (∀ j (h : j + 1 < (rc :: rest).length), (rc :: rest)[j + 1] ≤ 3 * (rc :: rest)[j]) → StepsOk rp rc rest
+  | [], _, _, _, _, _, _ => trivial
+  | rn :: rest, rp, rc, h0, h1, hp, hq => by
+    have hrc : 0 < rc := by linarith
+    have h2 : rc < rn := (List.pairwise_cons.mp hp).1 rn (by simp)
+    have h3 : rn ≤ 3 * rc := by simpa using hq 0 (by simp)
+    refine ⟨⟨hrc, h1, h2, h3⟩, stepsOk_of_indexed rest rc rn hrc.le h2 (List.pairwise_cons.mp hp).2 ?_⟩
+    intro j hj
+    have := hq (j + 1) (by simp at hj ⊢; omega)
+    simpa using this
+
+/-- **indexed form of the grid condition**: a strictly increasing grid starting at a non-negative
+radius whose steps satisfy `r[i+1] ≤ 3 r[i]` for every `i ≥ 1` is admissible -/
+theorem gridMP_of_indexed (r : List ℝ) (h2 : 2 ≤ r.length) (hinc : r.Pairwise (· < ·)) (h0 : 0 ≤ r[0])
+    (hq : ∀ i, 1 ≤ i → ∀ h : i + 1 < r.length, r[i + 1] ≤ 3 * r[i]) : GridMP r := by
+  match r, h2 with
+  | r0 :: r1 :: rest, _ =>
+    have h01 : r0 < r1 := (List.pairwise_cons.mp hinc).1 r1 (by simp)
+    refine ⟨h01, stepsOk_of_indexed rest r0 r1 (by simpa using h0) h01 (List.pairwise_cons.mp hinc).2 ?_⟩
+    intro j hj
+    have := hq (j + 1) (by omega) (by simp at hj ⊢; omega)
+    simpa using this
+
+end Radial
